@@ -2,6 +2,7 @@
    evaluate it at the given isotopomer states -/
 import Driver.Wire
 import MxlVerif.Model.C05
+import MxlVerif.Model.C16
 open Lean Mxl Mxl.Wire Mxl.C05
 namespace Driver.H_c05
 
@@ -40,6 +41,8 @@ def errJ : LErr → Json
   | .valueError => .arr #[.str "ValueError"]
   | .indexError => .arr #[.str "IndexError"]
   | .keyError k => .arr #[.str "KeyError", .str k]
+  | .typeError => .arr #[.str "TypeError"]
+  | .notImplementedError => .arr #[.str "NotImplementedError"]
 
 def intJ (i : Int) : Json := .str (toString i)
 
@@ -54,15 +57,51 @@ def stateOf (m : LModel) (st : List (String × Rat)) : Except String (List (LNam
     | some v => .ok (kv.1, v)
     | none => .error s!"state lacks {render kv.1}"
 
+/-- the structural part of a built model, as the harness compares it -/
+def modelJ (m : LModel) : List (String × Json) := [
+  ("rxns", .arr (m.rxns.map rxnJ).toArray),
+  ("vars", .arr (m.vars.map fun kv => Json.arr #[.str (render kv.1), ratJ kv.2]).toArray),
+  ("pars", assocJ ratJ m.pars),
+  ("derived", .arr ((m.totals.map fun kv => Json.arr #[.str (render kv.1), strsJ (kv.2.map render)])
+      ++ (m.derived.map fun kv => Json.arr #[.str kv.1, strsJ (kv.2.args.map render)])).toArray)]
+
+def resultJ : Except LErr LModel → Json
+  | .error e => Json.mkObj [("err", errJ e)]
+  | .ok m => Json.mkObj [("ok", Json.mkObj (modelJ m))]
+
+/-- the map as natural numbers when it has no negative index -/
+def natMap (lm : List Int) : Option (List Nat) :=
+  lm.mapM fun i => if 0 ≤ i then some i.toNat else none
+
+/-- a raw coefficient: `{"int": n}`, `{"float": "n/d"}` or `"derived"` -/
+def jCoef (j : Json) : Except String Coef :=
+  match j with
+  | .str "derived" => .ok .derived
+  | _ =>
+    match j.getObjVal? "int" with
+    | .ok v => do pure (.int (← jInt v))
+    | .error _ => do pure (.float (← jRat (← field j "float")))
+
 def handle (j : Json) : Except String Json := do
   let lv ← jList (jPair jStr jNat) (← field j "lv")
-  let maps ← jList (jPair jStr (jList jNat)) (← field j "maps")
+  let maps ← jList (jPair jStr (jList jInt)) (← field j "maps")
   let init ← jList (jPair jStr (jList jNat)) (fieldD j "init" (.arr #[]))
   let base ← jBase (← field j "base")
+  -- raw coefficients of the reactions whose stoichiometry is not all Python ints
+  let raw ← jList (jPair jStr (jList (jPair jStr jCoef))) (fieldD j "raw" (.arr #[]))
   let states ← jList (jAssoc jRat) (fieldD j "states" (.arr #[]))
   let distinct := Json.arr (base.rxns.filterMap fun r =>
     match maps.lookup r.name with
     | some _ => some (Json.arr #[.str r.name, .bool (distinctOcc lv r)])
+    | none => none).toArray
+  -- the vocabulary of the property statements, per mapped reaction: substrate / product label
+  -- positions and the external label string (compared with the real helpers)
+  let dims := Json.arr (base.rxns.filterMap fun r =>
+    match maps.lookup r.name with
+    | some lm => some (Json.arr #[.str r.name, toJson (nSub lv r), toJson (nProd lv r), .str (bits (extOf lv r)),
+        match normMap (max (nSub lv r) (nProd lv r)) lm with
+        | .ok l => toJson l
+        | .error e => errJ e])
     | none => none).toArray
   -- public queries: [["of", x] | ["at", x, [positions]] | ["n", x, k]]
   let queries ← jList jArr (fieldD j "queries" (.arr #[]))
@@ -80,20 +119,55 @@ def handle (j : Json) : Except String Json := do
     | _ => .error "bad query"
   let isosJ := Json.arr ((getIsotopomers lv).map fun kv =>
     Json.arr #[.str kv.1, strsJ (kv.2.map render)]).toArray
-  match buildModel base lv maps init with
-  | .error e => pure (Json.mkObj [("err", errJ e), ("distinct", distinct), ("queries", .arr qres.toArray), ("isos", isosJ)])
+  -- the natural-number entry point (the one the theorems are stated for) on maps without negative
+  -- indices must give what the integer entry point gives
+  let nat : String :=
+    if !raw.isEmpty then "na"
+    else if (resultJ (buildModelI base lv maps init)).compress != (resultJ (buildModelP base lv maps raw init)).compress
+    then "differs"
+    else match maps.mapM fun km => (natMap km.2).map fun l => (km.1, l) with
+    | none => "na"
+    | some nmaps =>
+      if (resultJ (buildModel base lv nmaps init)).compress == (resultJ (buildModelP base lv maps raw init)).compress
+      then "same" else "differs"
+  -- net coefficient of every base variable in every base reaction (`netOf`, the steady-state premise)
+  let net := Json.arr (base.rxns.flatMap fun r => base.vars.map fun kv =>
+    Json.arr #[.str r.name, .str kv.1, intJ (netOf base r.name kv.1)]).toArray
+  let common := [("distinct", distinct), ("dims", dims), ("net", net), ("queries", Json.arr qres.toArray), ("isos", isosJ),
+    ("nat", Json.str nat)]
+  match buildModelP base lv maps raw init with
+  | .error e => pure (Json.mkObj ([("err", errJ e)] ++ common))
   | .ok m =>
     let sts ← states.mapM (stateOf m)
     let rhs := sts.map fun st => Json.arr ((m.rhs st).map fun kv =>
       Json.arr #[.str (render kv.1), ratJ kv.2]).toArray
     let sums := sts.map fun st => assocJ ratJ (m.summedRhs lv (base.vars.map (·.1)) st)
-    pure (Json.mkObj [("ok", Json.mkObj [
-      ("rxns", .arr (m.rxns.map rxnJ).toArray),
-      ("vars", .arr (m.vars.map fun kv => Json.arr #[.str (render kv.1), ratJ kv.2]).toArray),
-      ("pars", assocJ ratJ m.pars),
-      ("derived", .arr ((m.totals.map fun kv => Json.arr #[.str (render kv.1), strsJ (kv.2.map render)])
-          ++ (m.derived.map fun kv => Json.arr #[.str kv.1, strsJ (kv.2.args.map render)])).toArray),
+    -- the right-hand side of the theorems: the base model's derivative at the isotopomer totals
+    let baseRhs := sts.map fun st =>
+      assocJ ratJ (base.vars.map fun kv => (kv.1, baseRhsOf base.rxns (totalsEnv lv (m.env st)) kv.1))
+    -- is the rate law the product of its arguments at this state (`MassAction.fn_prod`)
+    let prodAgree := sts.map fun st => Json.arr (base.rxns.map fun r =>
+      Json.arr #[.str r.name,
+        .bool (r.rate (totalsEnv lv (m.env st)) == listProd (r.args.map (totalsEnv lv (m.env st))))]).toArray
+    -- the base fluxes at the totals (`fluxAtTotals`: the `fluxes` the linear mapper is given)
+    let fluxes := sts.map fun st =>
+      assocJ ratJ (base.rxns.map fun r => (r.name, fluxAtTotals base lv (m.env st) r.name))
+    -- label flux per position (`C16_position_flux`, left-hand side): for every mapped reaction and padded
+    -- position `l`, the summed rates of its isotopomer reactions whose rate suffix is labelled at `l`
+    let posflux := sts.map fun st => Json.arr (base.rxns.flatMap fun r =>
+      match maps.lookup r.name with
+      | none => []
+      | some _ =>
+        let grp := m.rxns.filter fun rx => rx.name.base == r.name && rx.name.lab.isSome
+        (List.range (max (nSub lv r) (nProd lv r))).map fun l =>
+          Json.arr #[.str r.name, toJson l,
+            ratJ ((grp.map fun rx => Mxl.C16.ind ((Mxl.C16.suffixOf rx).getD l false) * rx.rate (m.env st)).sum)]).toArray
+    pure (Json.mkObj ([("ok", Json.mkObj (modelJ m ++ [
+      ("fluxes", .arr fluxes.toArray),
+      ("posflux", .arr posflux.toArray),
       ("rhs", .arr rhs.toArray),
-      ("sums", .arr sums.toArray)]), ("distinct", distinct), ("queries", .arr qres.toArray), ("isos", isosJ)])
+      ("sums", .arr sums.toArray),
+      ("base_rhs", .arr baseRhs.toArray),
+      ("prod", .arr prodAgree.toArray)]))] ++ common))
 
 end Driver.H_c05
